@@ -239,4 +239,5 @@ func init() {
 	register("C20", newC20)
 	register("C22", newC22)
 	register("C21", newC21)
+	register("C25", newC25, newC25Requestor)
 }
